@@ -87,7 +87,26 @@ type arb struct {
 	normal bool
 }
 
-func buildArbiters(as []arb, params *config.Configuration) *state.Arbiters {
+// buildArbiters returns a real Arbiters value: current arbiters `as`, plus a
+// producer registry (as on a real chain) that is larger than the arbiter set:
+// every arbiter, the registered-but-not-elected candidates and next-round CR nodes.
+func buildArbiters(as []arb, params *config.Configuration, candidates, nextCR []key) *state.Arbiters {
+	st := &state.State{StateKeyFrame: state.NewStateKeyFrame(), ChainParams: params}
+	for _, a := range as {
+		st.NodeOwnerKeys[common.BytesToHexString(a.k.pub)] = common.BytesToHexString(a.k.pub)
+	}
+	for _, k := range candidates {
+		st.NodeOwnerKeys[common.BytesToHexString(k.pub)] = common.BytesToHexString(k.pub)
+	}
+	for _, k := range nextCR {
+		st.NextCRNodeOwnerKeys[common.BytesToHexString(k.pub)] = common.BytesToHexString(k.pub)
+	}
+	a := buildArbitersOnly(as, params)
+	a.State = st
+	return a
+}
+
+func buildArbitersOnly(as []arb, params *config.Configuration) *state.Arbiters {
 	var ms []state.ArbiterMember
 	for _, a := range as {
 		var m state.ArbiterMember
@@ -109,7 +128,7 @@ func main() {
 	run := lib.ParseArgs()
 	elaenv.InitLog(run.Out)
 	rng := lib.NewRng(run.Seed)
-	st := lib.NewStats("C25", "arbiter sets of 0..36 members (real secp256r1 keys; abnormal CRC members and a duplicated member occasionally) x confirmations whose number of distinct good signers is majority-1 .. majority+2 or all, polluted with duplicates, re-signed duplicates, reject votes, foreign signers, abnormal-arbiter signers, wrong proposal hash, corrupted / foreign-key / empty signatures, undecodable signer keys; sponsors: arbiter / foreign / abnormal / bad proposal signature. nontrivial = at least majority-1 distinct good signers (accept path or quorum boundary); distinct by (n, composition, verdicts)")
+	st := lib.NewStats("C25", "arbiter sets of 0..36 members inside a larger producer registry (registered-but-not-elected candidates, next-round CR nodes) (real secp256r1 keys; abnormal CRC members and a duplicated member occasionally) x confirmations whose number of distinct good signers is majority-1 .. majority+2 or all, polluted with duplicates, re-signed duplicates, reject votes, foreign signers, abnormal-arbiter signers, wrong proposal hash, corrupted / foreign-key / empty signatures, undecodable signer keys; sponsors: arbiter / foreign / abnormal / bad proposal signature. nontrivial = at least majority-1 distinct good signers (accept path or quorum boundary); distinct by (n, composition, verdicts)")
 	sh := &lib.Shards{Dir: run.Out, Imports: "From ELA Require Import model.C25_Confirm corr.C25_corr.", CaseType: "C25_corr.case",
 		Mismatch: "C25_corr.mismatches", Scope: "Z", PerShard: 150}
 	id := 0
@@ -162,8 +181,6 @@ func main() {
 		// mode: "random" | "clean" | a single defect added to an otherwise clean confirmation
 		clean := mode != "random"
 		n := len(as)
-		arbs := buildArbiters(as, &params)
-		blockchain.DefaultLedger = &blockchain.Ledger{Arbitrators: arbs}
 		isNormalArb := map[string]bool{}
 		inSet := map[string]bool{}
 		for _, a := range as {
@@ -178,6 +195,15 @@ func main() {
 				foreign = append(foreign, k)
 			}
 		}
+		// half of the non-arbiters are registered producers that were not elected,
+		// a few are next-round CR nodes, the rest are unknown to the node
+		nc := len(foreign) / 2
+		candidates, nextCR := foreign[:nc], foreign[nc:nc+3]
+		arbs := buildArbiters(as, &params, candidates, nextCR)
+		blockchain.DefaultLedger = &blockchain.Ledger{Arbitrators: arbs}
+		fclass := []string{"registered-candidate", "next-cr-node", "stranger", "any"}[rng.Intn(4)]
+		fpool := map[string][]key{"registered-candidate": candidates, "next-cr-node": nextCR, "stranger": foreign[nc+3:], "any": foreign}[fclass]
+		fnext := rng.Intn(len(fpool))
 		var normals, abnormals []key
 		for _, a := range as {
 			if a.normal {
@@ -333,7 +359,8 @@ func main() {
 				case "reject", "reject-dup":
 					g = gvote{mk(pick(), ph, false), true, kind}
 				case "foreign":
-					g = gvote{mk(foreign[rng.Intn(len(foreign))], ph, true), true, kind}
+					g = gvote{mk(fpool[fnext%len(fpool)], ph, true), true, kind + ":" + fclass}
+					fnext++
 				case "abnormal":
 					if len(abnormals) == 0 {
 						continue
